@@ -446,3 +446,56 @@ func VH_C07k() {
 	kind := backendKind()
 	c07Linearizable(func() gofakes3.Backend { return c07StateKind(kind) }, "C07k")
 }
+
+// pausingBackend pauses after HeadObject: the point between the two reads
+// (metadata, then contents) that a copy through the HTTP handler performs.
+type pausingBackend struct {
+	gofakes3.Backend
+	armed *bool
+	flag  *int32
+}
+
+func (p pausingBackend) HeadObject(bucket, key string) (*gofakes3.Object, error) {
+	o, err := p.Backend.HeadObject(bucket, key)
+	if *p.armed {
+		vsym.YieldUntil(p.flag)
+	}
+	return o, err
+}
+
+// VH_C07c: a copy through the HTTP handler while another client overwrites
+// the source with new bytes and new metadata: the destination must be one
+// upload of the source, bytes and metadata together.
+func VH_C07c() {
+	armed, flag := false, int32(0)
+	inner := s3mem.New()
+	b := pausingBackend{Backend: inner, armed: &armed, flag: &flag}
+	h := gofakes3.New(b, gofakes3.WithTimeSkewLimit(0)).Server()
+	vsym.Assert(Do(h, Req{Method: "PUT", Path: "/bkt"}).Code() == 200, "C07c/setup")
+	vsym.Assert(Do(h, BodyReq("PUT", "/bkt/k", http.Header{"X-Amz-Meta-A": {"old"}, "Content-Type": {"t/old"}}, []byte("0"))).Code() == 200, "C07c/setup")
+	body := vsym.Bytes("body", 1)
+	var ra, rb int
+	armed = true
+	vsym.Go(func() {
+		ra = Do(h, Req{Method: "PUT", Path: "/bkt/j", Header: http.Header{"X-Amz-Copy-Source": {"/bkt/k"}}}).Code()
+	})
+	vsym.Go(func() {
+		rb = Do(h, BodyReq("PUT", "/bkt/k", http.Header{"X-Amz-Meta-A": {"new"}, "Content-Type": {"t/new"}}, body)).Code()
+		vsym.SetFlag(&flag)
+	})
+	vsym.Join()
+	armed = false
+	vsym.Assert(ra == 200 && rb == 200, "C07c/status")
+	g := Do(h, Req{Method: "GET", Path: "/bkt/j"})
+	vsym.Assert(g.Code() == 200, "C07c/copy-readable")
+	isOld := string(g.Body) == "0" && g.Hdr.Get("ETag") == etagOf([]byte("0"))
+	isNew := string(g.Body) == string(body) && g.Hdr.Get("ETag") == etagOf(body)
+	vsym.Assert(isOld || isNew, "C07c/copy-is-one-upload")
+	metaOld := g.Hdr.Get("X-Amz-Meta-A") == "old" && g.Hdr.Get("Content-Type") == "t/old"
+	metaNew := g.Hdr.Get("X-Amz-Meta-A") == "new" && g.Hdr.Get("Content-Type") == "t/new"
+	// recorded finding: the handler reads the source's metadata (HeadObject) and
+	// its contents (CopyObject) in two steps
+	vsym.KnownRegion("KF-C07-http-copy-metadata-snapshot", vsym.And(isNew, metaOld))
+	vsym.Assert(vsym.Or(vsym.And(isOld, metaOld), vsym.And(isNew, metaNew)), "C07c/copy-pairs-bytes-and-metadata-of-one-upload")
+	vsym.Reach("C07c/done")
+}
